@@ -1,2 +1,294 @@
-static int OqReplay(int, char **) {return 2;}
-static int HostileRun(int, char **) {return 2;}
+// C07 part of harness/srv.cpp (included there): OutQueue.tla's cases replayed with the victim's valve closed; HostileSpace.tla's Messages injected.
+#include "util/MiscUtilityFunctions.h"
+
+static const uint32 BIG_BYTES = 300000;   // payload of the filler node: two replies of this size fill the socket pair's buffers
+
+// the three parties of every C07 world: V the sender of the hostile traffic (valve = whether the harness reads its socket), B a second sender, W the witness
+struct OqWorld {
+   World w; Client * V; Client * B; Client * W; uint32 pingSeq;
+   std::vector<std::string> viol, drift;
+   void Vio(const std::string & x) {if (viol.size() < 6) viol.push_back(x);}
+   void Dri(const std::string & x) {if (drift.size() < 6) drift.push_back(x);}
+   OqWorld() : pingSeq(0)
+   {
+      V = w.Add("V", "hV"); B = w.Add("B", "hB"); W = w.Add("W", "hW"); w.Settle();
+      MessageRef m = Msg(PR_COMMAND_SETDATA); m()->AddMessage("a", Msg(1)); m()->AddMessage("b", Msg(2)); m()->AddMessage("c", Msg(1));
+      MessageRef big = Msg(1); big()->AddFlat("blob", GetByteBufferFromPool(BIG_BYTES)); m()->AddMessage("big", big);
+      w.Send(W, m); w.Settle();
+   }
+   // closes the valve of c: the harness stops reading c's socket, and replies are requested until the server cannot write any more
+   // (from then on every further reply stays in the session's outgoing Message queue, whole)
+   bool CloseValve(Client * c)
+   {
+      c->reads = false;
+      for (int k=0; k<6; k++) {
+         MessageRef g = Msg(PR_COMMAND_GETDATA); g()->AddString(PR_NAME_KEYS, (W->root + "/big").c_str()); w.Send(c, g); w.Settle(2);
+         if ((c->sess->ServerHasBytes())&&(k >= 1)) { // blocked: a probe reply must now stay queued
+            const uint32 before = c->sess->OutQ()->GetNumItems(); MessageRef p = Msg(PR_COMMAND_PING); p()->AddInt32("valve", 1); w.Send(c, p); w.Settle(2);
+            if (c->sess->OutQ()->GetNumItems() == before+1) {(void) c->sess->OutQ()->RemoveTail(); return true;} }
+      }
+      return false;
+   }
+   // the witness's ping must be answered
+   bool WitnessPing(const char * when)
+   {
+      W->inbox.clear(); MessageRef p = Msg(PR_COMMAND_PING); p()->AddInt32("seq", (int32) ++pingSeq); w.Send(W, p);
+      SetStage(when); w.Settle(2);
+      for (size_t k=0; k<W->inbox.size(); k++) if ((W->inbox[k]()->what == PR_RESULT_PONG)&&(W->inbox[k]()->GetInt32("seq") == (int32) pingSeq)) {W->inbox.clear(); return true;}
+      // generous second chance before it is reported: the event loop may simply need more rounds
+      w.Settle(6);
+      for (size_t k=0; k<W->inbox.size(); k++) if ((W->inbox[k]()->what == PR_RESULT_PONG)&&(W->inbox[k]()->GetInt32("seq") == (int32) pingSeq)) {W->inbox.clear(); return true;}
+      char b[200]; snprintf(b, sizeof(b), "%s: the witness's PR_COMMAND_PING was not answered (witness %s attached, %u sessions)", when, w.Attached(W) ? "still" : "NO LONGER", w.srv->GetSessions().GetNumItems());
+      Vio(b); return false;
+   }
+};
+
+// ---- queue shapes <-> real Messages
+static std::string LeafOf(const std::string & path) {const size_t s = path.rfind('/'); return (s == std::string::npos) ? path : path.substr(s+1);}
+// canonical text of one queued Message in the specification's vocabulary: items{a=[1,2];b=[2]|rem a,c}  trees(t1)  other
+static std::string ShapeOfMessage(const Message & m)
+{
+   if (m.what == PR_RESULT_DATAITEMS) {
+      std::map<std::string, std::string> sets; std::set<std::string> rem;
+      for (MessageFieldNameIterator it = m.GetFieldNameIterator(B_MESSAGE_TYPE); it.HasData(); it++) {std::string ws; MessageRef sub; for (int i=0; m.FindMessage(it.GetFieldName(), i, sub).IsOK(); i++) {char b[16]; snprintf(b, sizeof(b), "%s%u", i ? "," : "", sub()->what); ws += b;} sets[LeafOf(it.GetFieldName()())] = ws;}
+      const String * r; for (int i=0; m.FindString(PR_NAME_REMOVED_DATAITEMS, i, &r).IsOK(); i++) rem.insert(LeafOf(r->Cstr()));
+      std::string s = "items{"; for (std::map<std::string, std::string>::iterator i = sets.begin(); i != sets.end(); ++i) {if (i != sets.begin()) s += ';'; s += i->first + "=[" + i->second + "]";}
+      s += "|rem"; for (std::set<std::string>::iterator i = rem.begin(); i != rem.end(); ++i) s += " " + *i; return s + "}";
+   }
+   if (m.what == PR_RESULT_DATATREES) {const char * id = m.GetCstr(PR_NAME_TREE_REQUEST_ID); return std::string("trees(") + (id ? id : "none") + ")";}
+   return "other";
+}
+static std::string ShapeOfModel(const J & m)
+{
+   const std::string k = m["k"].str();
+   if (k == "items") { std::map<std::string, std::string> sets; std::set<std::string> rem;
+      for (size_t i=0; i<m["sets"].size(); i++) {std::string ws; const J & w = m["sets"][i]["ws"]; for (size_t q=0; q<w.size(); q++) {char b[16]; snprintf(b, sizeof(b), "%s%d", q ? "," : "", (int) w[q].i()); ws += b;} sets[m["sets"][i]["n"].str()] = ws;}
+      for (size_t i=0; i<m["rem"].size(); i++) rem.insert(m["rem"][i].str());
+      std::string s = "items{"; for (std::map<std::string, std::string>::iterator i = sets.begin(); i != sets.end(); ++i) {if (i != sets.begin()) s += ';'; s += i->first + "=[" + i->second + "]";}
+      s += "|rem"; for (std::set<std::string>::iterator i = rem.begin(); i != rem.end(); ++i) s += " " + *i; return s + "}"; }
+   if (k == "trees") return "trees(" + m["id"].str() + ")";
+   return "other";
+}
+static std::vector<std::string> ShapesOfQueue(Queue<MessageRef> & q) {std::vector<std::string> v; for (uint32 i=0; i<q.GetNumItems(); i++) if (q[i]()) v.push_back(ShapeOfMessage(*q[i]())); return v;}
+static std::vector<std::string> ShapesOfModelQueue(const J & q) {std::vector<std::string> v; for (size_t i=0; i<q.size(); i++) v.push_back(ShapeOfModel(q[i])); return v;}
+static std::string JoinShapes(const std::vector<std::string> & v) {std::string s; for (size_t i=0; i<v.size(); i++) {if (i) s += " , "; s += v[i];} return "[" + s + "]";}
+
+static MessageRef FilterArchive(const std::string & kind);
+
+// makes the server queue, for the (non-reading) victim, one result Message of the given model shape
+static void Enqueue(OqWorld & ow, const J & m)
+{
+   World & w = ow.w; Client * V = ow.V; Client * W = ow.W; const std::string k = m["k"].str();
+   if (k == "other") {MessageRef p = Msg(PR_COMMAND_PING); p()->AddInt32("q", 1); w.Send(V, p); w.Settle(2); return;}
+   if (k == "trees") {MessageRef g = Msg(PR_COMMAND_GETDATATREES); g()->AddString(PR_NAME_KEYS, "a"); if (m["id"].str() != "none") g()->AddString(PR_NAME_TREE_REQUEST_ID, m["id"].str().c_str()); w.Send(V, g); w.Settle(2); return;}
+   // items: the victim subscribes quietly to exactly the nodes involved, the witness makes the changes with ONE command (= one update Message), the victim unsubscribes.
+   //   only sets: one PR_COMMAND_SETDATA carrying every payload (several payloads of one node = several items of one field)
+   //   only removals: one PR_COMMAND_REMOVEDATA
+   //   both: the subscription carries the filter "what == 1"; one SETDATA gives the nodes to be "removed" a payload the filter rejects, and the others what 1
+   const bool hasSets = m["sets"].size() > 0, hasRem = m["rem"].size() > 0;
+   std::vector<std::string> names; for (size_t i=0; i<m["sets"].size(); i++) names.push_back(m["sets"][i]["n"].str()); for (size_t i=0; i<m["rem"].size(); i++) names.push_back(m["rem"][i].str());
+   if ((hasSets)&&(hasRem)) { // precondition: the nodes to be removed pass the filter now, the nodes to be set do not
+      MessageRef sd = Msg(PR_COMMAND_SETDATA); for (size_t i=0; i<m["sets"].size(); i++) sd()->AddMessage(m["sets"][i]["n"].str().c_str(), Msg(2)); for (size_t i=0; i<m["rem"].size(); i++) sd()->AddMessage(m["rem"][i].str().c_str(), Msg(1)); w.Send(W, sd); w.Settle(2); }
+   {MessageRef s = Msg(PR_COMMAND_SETPARAMETERS); s()->AddBool(PR_NAME_SUBSCRIBE_QUIETLY, true);
+    for (size_t i=0; i<names.size(); i++) {const std::string pn = std::string("SUBSCRIBE:") + W->root + "/" + names[i]; if ((hasSets)&&(hasRem)) s()->AddMessage(pn.c_str(), FilterArchive("what1")); else s()->AddBool(pn.c_str(), true);}
+    w.Send(V, s); w.Settle(2);}
+   if (hasSets) { MessageRef sd = Msg(PR_COMMAND_SETDATA);
+      for (size_t i=0; i<m["sets"].size(); i++) {const J & ws = m["sets"][i]["ws"]; for (size_t q=0; q<ws.size(); q++) sd()->AddMessage(m["sets"][i]["n"].str().c_str(), Msg((uint32) ws[q].i()));}
+      for (size_t i=0; i<m["rem"].size(); i++) sd()->AddMessage(m["rem"][i].str().c_str(), Msg(3));
+      w.Send(W, sd); w.Settle(2); }
+   else {MessageRef rd = Msg(PR_COMMAND_REMOVEDATA); for (size_t i=0; i<m["rem"].size(); i++) rd()->AddString(PR_NAME_KEYS, m["rem"][i].str().c_str()); w.Send(W, rd); w.Settle(2);}
+   {MessageRef u = Msg(PR_COMMAND_REMOVEPARAMETERS); u()->AddString(PR_NAME_KEYS, "SUBSCRIBE:*"); w.Send(V, u); w.Settle(2);}
+   // the witness restores its nodes (the victim is no longer subscribed: nothing is queued for it)
+   {MessageRef sd = Msg(PR_COMMAND_SETDATA); sd()->AddMessage("a", Msg(1)); sd()->AddMessage("b", Msg(2)); sd()->AddMessage("c", Msg(1)); w.Send(W, sd); w.Settle(2);}
+}
+
+static MessageRef BuildPrim(const J & c)
+{
+   const std::string kind = c["kind"].str();
+   MessageRef m = Msg((kind == "JR") ? PR_COMMAND_JETTISONRESULTS : PR_COMMAND_JETTISONDATATREES);
+   for (size_t i=0; i<c["keys"].size(); i++) (void) m()->AddString((kind == "JR") ? PR_NAME_KEYS : PR_NAME_TREE_REQUEST_ID, c["keys"][i].str().c_str());
+   for (size_t i=0; i<c["filt"].size(); i++) { const std::string f = c["filt"][i].str();
+      if (f == "none") {bool later = false; for (size_t q=i+1; q<c["filt"].size(); q++) if (c["filt"][q].str() != "none") later = true; if (!later) break;}
+      (void) m()->AddMessage(PR_NAME_FILTERS, FilterArchive((f == "w1") ? "what1" : (f == "w2") ? "what2" : "not-a-filter")); }
+   return m;
+}
+// the command Message of a case: a plain primitive, or a BATCH holding each primitive inside (nest - 1) further BATCHes
+static MessageRef BuildCommand(const J & cmd)
+{
+   if ((cmd.size() == 1)&&(cmd[(size_t)0]["nest"].i() == 0)) return BuildPrim(cmd[(size_t)0]);
+   MessageRef top = Msg(PR_COMMAND_BATCH);
+   for (size_t i=0; i<cmd.size(); i++) { MessageRef cur = BuildPrim(cmd[i]); for (int64_t d=1; d<cmd[i]["nest"].i(); d++) {MessageRef b = Msg(PR_COMMAND_BATCH); (void) b()->AddMessage(PR_NAME_KEYS, cur); cur = b;} (void) top()->AddMessage(PR_NAME_KEYS, cur); }
+   return top;
+}
+
+static long g_oqFollowed = 0, g_oqDrift = 0, g_oqQueued = 0, g_oqArrived = 0, g_oqPumps = 0; static double g_oqSlowest = 0;
+
+static void OqCase(const J & cs)
+{
+   OqWorld ow; World & w = ow.w; Client * V = ow.V;
+   J row = J::Obj(); row.set("case", cs);
+   if (!ow.CloseValve(V)) {ow.Dri("could not block the victim's socket (the precondition of the case)");}
+   else {
+      const uint32 base = V->sess->OutQ()->GetNumItems();     // filler replies still queued behind the one in the send buffer
+      for (size_t i=0; i<cs["q0"].size(); i++) Enqueue(ow, cs["q0"][i]);
+      Queue<MessageRef> & oq = *V->sess->OutQ();
+      std::vector<std::string> have = ShapesOfQueue(oq); have.erase(have.begin(), have.begin()+std::min((size_t) base, have.size()));
+      const std::vector<std::string> want0 = ShapesOfModelQueue(cs["q0"]);
+      if (have != want0) ow.Dri("could not build the queue state of the case: wanted " + JoinShapes(want0) + ", the server queued " + JoinShapes(have));
+      else {
+         g_oqQueued += (long) want0.size();
+         const unsigned long recvBefore = V->received;
+         SetStage("processing the command of the case with the victim's valve closed");
+         w.Send(V, BuildCommand(cs["cmd"])); w.Settle(3);
+         ow.WitnessPing("after the command of the case");
+         std::vector<std::string> after = ShapesOfQueue(oq);
+         // the filler replies must still be there
+         uint32 fillers = 0; while ((fillers < after.size())&&(fillers < base)&&(after[fillers].compare(0, 6, "items{") == 0)&&(after[fillers].find("big=") != std::string::npos)) fillers++;
+         after.erase(after.begin(), after.begin()+fillers);
+         const std::vector<std::string> want = ShapesOfModelQueue(cs["q"]);
+         // (a JETTISONRESULTS that matches the filler's path removes the filler too: pattern "*" - the model's queue holds only the case's Messages)
+         if (after != want) ow.Dri("queue after the command: the specification says " + JoinShapes(want) + ", the server holds " + JoinShapes(after));
+         // open the valve: what is queued must arrive, in order, and nothing else
+         V->inbox.clear(); V->reads = true; SetStage("draining the victim's queue after the valve was opened"); w.Settle(3);
+         std::vector<std::string> arrived; for (size_t k=0; k<V->inbox.size(); k++) arrived.push_back(ShapeOfMessage(*V->inbox[k]()));
+         // drop the fillers (the first one was partly written already)
+         while ((!arrived.empty())&&(arrived[0].find("big=") != std::string::npos)) arrived.erase(arrived.begin());
+         g_oqArrived += (long) arrived.size();
+         if (arrived != after) ow.Dri("after opening the valve the victim received " + JoinShapes(arrived) + " but its queue held " + JoinShapes(after));
+         if (V->sess->OutQ()->GetNumItems() != 0) ow.Dri("the victim's queue did not drain after the valve was opened");
+         (void) recvBefore;
+         ow.WitnessPing("after the valve was opened");
+      }
+   }
+   g_oqPumps += (long) w.pumps; if (w.slowest > g_oqSlowest) g_oqSlowest = w.slowest;
+   if (!ow.viol.empty()) {g_violCases++; row.set("violations", StrList(ow.viol));}
+   if (!ow.drift.empty()) {g_oqDrift++; row.set("drift", StrList(ow.drift));}
+   if ((ow.viol.empty())&&(ow.drift.empty())) g_oqFollowed++; else RepJ(row);
+}
+
+static int OqReplay(int argc, char ** argv)
+{
+   if (argc < 4) return 2;
+   std::vector<J> cases; if (!ReadCases(argv[2], cases)) {fprintf(stderr, "cannot read %s\n", argv[2]); return 3;}
+   if (!OpenReport(argv[3])) return 3;
+   const double t0 = Now();
+   for (size_t i=0; (i<cases.size())&&(g_violCases < 25); i++) {g_cases++; SetCur(mj::ToString(cases[i]).substr(0, 6000)); OqCase(cases[i]);}
+   J s = J::Obj(); s.set("summary", J::Bool(true)).set("cases", J::Int(g_cases)).set("followed", J::Int(g_oqFollowed)).set("drifted", J::Int(g_oqDrift)).set("violating_cases", J::Int(g_violCases))
+      .set("messages_queued", J::Int(g_oqQueued)).set("messages_arrived", J::Int(g_oqArrived)).set("pumps", J::Int(g_oqPumps)).set("slowest_pump_us", J::Int((int64_t) (g_oqSlowest*1e6))).set("wall_ms", J::Int((int64_t) ((Now()-t0)*1000)));
+   RepJ(s); return 0;
+}
+
+// ================================================================================================================ hostile Messages
+static MessageRef FilterArchive(const std::string & kind)
+{
+   MessageRef fm = GetMessageFromPool();
+   if (kind == "what1") (void) WhatCodeQueryFilter(1).SaveToArchive(*fm());
+   else if (kind == "what2") (void) WhatCodeQueryFilter(2).SaveToArchive(*fm());
+   else if (kind == "string") (void) StringQueryFilter("f", StringQueryFilter::OP_SIMPLE_WILDCARD_MATCH, "*a*").SaveToArchive(*fm());
+   else if (kind == "int") (void) Int32QueryFilter("i", Int32QueryFilter::OP_GREATER_THAN, 3).SaveToArchive(*fm());
+   else if ((kind == "and2")||(kind == "and-kid-missing")||(kind == "and-kid-retyped")) {
+      AndQueryFilter a; (void) a.GetChildren().AddTail(ConstQueryFilterRef(new WhatCodeQueryFilter(1))); (void) a.GetChildren().AddTail(ConstQueryFilterRef(new Int32QueryFilter("i", Int32QueryFilter::OP_EQUAL_TO, 1))); (void) a.SaveToArchive(*fm());
+      if (kind != "and2") { // damage the first field that holds the children
+         String kidField; for (MessageFieldNameIterator it = fm()->GetFieldNameIterator(B_MESSAGE_TYPE); it.HasData(); it++) {kidField = it.GetFieldName(); break;}
+         if (kidField.HasChars()) {(void) fm()->RemoveName(kidField); if (kind == "and-kid-retyped") {(void) fm()->AddInt32(kidField, 7); (void) fm()->AddInt32(kidField, 8);}} } }
+   else if (kind == "and-nested3") { ConstQueryFilterRef cur(new WhatCodeQueryFilter(1)); for (int d=0; d<3; d++) {AndQueryFilter * a = new AndQueryFilter; (void) a->GetChildren().AddTail(cur); (void) a->GetChildren().AddTail(ConstQueryFilterRef(new WhatCodeQueryFilter(1, 2))); cur.SetRef(a);} (void) cur()->SaveToArchive(*fm()); }
+   else if (kind == "msgfilter") {MessageQueryFilter q(ConstQueryFilterRef(new WhatCodeQueryFilter(1)), ConstMessageRef(), "sub"); (void) q.SaveToArchive(*fm());}
+   else if (kind == "not-a-filter") {fm()->what = 1234; (void) fm()->AddString("fn", "x");}
+   else if (kind == "what-retyped") {(void) WhatCodeQueryFilter(1).SaveToArchive(*fm()); for (MessageFieldNameIterator it = fm()->GetFieldNameIterator(); it.HasData(); it++) {const String n = it.GetFieldName(); (void) fm()->RemoveName(n); (void) fm()->AddString(n, "zz"); break;}}
+   else if (kind == "nest200") { // an AND archive that contains itself 200 levels deep
+      AndQueryFilter a; (void) a.GetChildren().AddTail(ConstQueryFilterRef(new WhatCodeQueryFilter(1))); MessageRef proto = GetMessageFromPool(); (void) a.SaveToArchive(*proto());
+      String kidField; for (MessageFieldNameIterator it = proto()->GetFieldNameIterator(B_MESSAGE_TYPE); it.HasData(); it++) {kidField = it.GetFieldName(); break;}
+      MessageRef cur = GetMessageFromPool(*proto());
+      for (int d=0; (d<200)&&(kidField.HasChars()); d++) {MessageRef outer = GetMessageFromPool(*proto()); (void) outer()->RemoveName(kidField); (void) outer()->AddMessage(kidField, cur); cur = outer;}
+      fm = cur; }
+   return fm;
+}
+
+static MessageRef NestedBatch(int depth, const MessageRef & leaf) {MessageRef cur = leaf; for (int i=0; i<depth; i++) {MessageRef b = Msg(PR_COMMAND_BATCH); (void) b()->AddMessage(PR_NAME_KEYS, cur); cur = b;} return cur;}
+
+static void AddHostileField(Message & m, const J & f, const std::string & wroot)
+{
+   const std::string n = f["n"].str(), sh = f["sh"].str(), a = f["a"].str(); const char * fn = n.c_str();
+   if (sh == "str") (void) m.AddString(fn, a.c_str());
+   else if (sh == "strs") {(void) m.AddString(fn, "*"); (void) m.AddString(fn, "a"); (void) m.AddString(fn, "[");}
+   else if (sh == "i32") (void) m.AddInt32(fn, (int32) strtoll(a.c_str(), NULL, 10));
+   else if (sh == "i32s") {const int32 v = atoi(a.c_str()); (void) m.AddInt32(fn, v); (void) m.AddInt32(fn, v+1); (void) m.AddInt32(fn, -1);}
+   else if (sh == "i64") (void) m.AddInt64(fn, -1);
+   else if (sh == "bool") (void) m.AddBool(fn, true);
+   else if (sh == "raw") (void) m.AddFlat(fn, GetByteBufferFromPool((uint32) atoi(a.c_str())));
+   else if (sh == "msg") (void) m.AddMessage(fn, GetMessageFromPool());
+   else if (sh == "filt") (void) m.AddMessage(fn, FilterArchive(a));
+   else if (sh == "filts") {(void) m.AddMessage(fn, FilterArchive("what1")); (void) m.AddMessage(fn, FilterArchive("and-kid-retyped")); (void) m.AddMessage(fn, FilterArchive("string"));}
+   else if (sh == "flags") {SetDataNodeFlags fl; fl.SetWord(0, (uint32) atoi(a.c_str())); (void) m.AddFlat(fn, fl);}
+   else if (sh == "data") {MessageRef d = Msg(1); (void) d()->AddString("f", "xax"); if (a == "big") (void) d()->AddFlat("blob", GetByteBufferFromPool(200000)); (void) m.AddMessage(fn, d);}
+   else if (sh == "cmds") {
+      MessageRef jr = Msg(PR_COMMAND_JETTISONRESULTS); (void) jr()->AddString(PR_NAME_KEYS, "*"); (void) jr()->AddMessage(PR_NAME_FILTERS, FilterArchive("what1"));
+      if (a == "jr-filter") (void) m.AddMessage(fn, jr);
+      else if (a == "nest50") (void) m.AddMessage(fn, NestedBatch(50, jr));
+      else if (a == "nest150") (void) m.AddMessage(fn, NestedBatch(150, jr));
+      else if (a == "mixed") { MessageRef sd = Msg(PR_COMMAND_SETDATA); (void) sd()->AddMessage("n", Msg(1)); MessageRef gd = Msg(PR_COMMAND_GETDATA); (void) gd()->AddString(PR_NAME_KEYS, "/*/*/*");
+         MessageRef rd = Msg(PR_COMMAND_REMOVEDATA); (void) rd()->AddString(PR_NAME_KEYS, "*"); MessageRef pg = Msg(PR_COMMAND_PING);
+         (void) m.AddMessage(fn, sd); (void) m.AddMessage(fn, gd); (void) m.AddMessage(fn, jr); (void) m.AddMessage(fn, rd); (void) m.AddMessage(fn, pg); (void) m.AddMessage(fn, Msg(1234)); }
+      else if (a == "self-similar") {MessageRef b = Msg(PR_COMMAND_BATCH); for (int i=0; i<3; i++) (void) b()->AddMessage(PR_NAME_KEYS, jr); MessageRef b2 = Msg(PR_COMMAND_BATCH); for (int i=0; i<3; i++) (void) b2()->AddMessage(PR_NAME_KEYS, b); MessageRef b3 = Msg(PR_COMMAND_BATCH); for (int i=0; i<3; i++) (void) b3()->AddMessage(PR_NAME_KEYS, b2); (void) m.AddMessage(fn, b3);}
+   }
+   (void) wroot;
+}
+static MessageRef BuildHostile(const J & c, const std::string & wroot)
+{
+   MessageRef m = Msg((uint32) (int32) c["what"].i());
+   for (size_t i=0; i<c["f"].size(); i++) AddHostileField(*m(), c["f"][i], wroot);
+   return m;
+}
+
+// injects the Messages of `order` (indices into cases), `perWorld` per server instance; senders: V (valve closed, backlog) and / or B (reading)
+static long g_hInjected = 0, g_hWorlds = 0, g_hPings = 0, g_hDropped = 0, g_hBacklogMax = 0;
+static void HostilePass(const std::vector<J> & cases, const std::vector<size_t> & order, size_t perWorld, int clients, std::mt19937 & rng, const char * passName)
+{
+   size_t pos = 0;
+   while ((pos < order.size())&&(g_violCases < 25)) {
+      OqWorld ow; World & w = ow.w; g_hWorlds++;
+      const bool blocked = ow.CloseValve(ow.V);
+      // a backlog for the jettison / supersede paths to walk: the victim is subscribed to the witness's small nodes, which the witness keeps changing
+      if (blocked) {MessageRef s = Msg(PR_COMMAND_SETPARAMETERS); s()->AddBool((std::string("SUBSCRIBE:") + ow.W->root + "/*").c_str(), true); w.Send(ow.V, s); w.Settle(2);}
+      J hist = J::Arr(); size_t n = 0;
+      for (; (n < perWorld)&&(pos < order.size())&&(ow.viol.empty()); n++, pos++) {
+         const J & c = cases[order[pos]];
+         Client * sender = (clients == 1) ? ow.V : ((rng() & 1) ? ow.V : ow.B);
+         if ((!sender->connected)||(!w.Attached(sender))||(sender->peerClosed)) {sender = (sender == ow.V) ? ow.B : ow.V; if ((!sender->connected)||(!w.Attached(sender))) {g_hDropped++; break;}}
+         J h = J::Obj(); h.set("from", J::Str(sender->name)).set("case", c); hist.push(h);
+         {J cur = J::Obj(); cur.set("pass", J::Str(passName)).set("valve_closed", J::Bool(blocked)).set("history", hist); SetCur(mj::ToString(cur).substr(std::max((size_t) 0, (size_t) 0), 7000));}
+         char when[160]; snprintf(when, sizeof(when), "processing hostile Message #%lld (what %lld) from %s", (long long) c["id"].i(), (long long) c["what"].i(), sender->name.c_str()); SetStage(when);
+         w.Send(sender, BuildHostile(c, ow.W->root)); g_hInjected++;
+         w.Settle(2);
+         if ((n % 7) == 3) { // the witness keeps its nodes changing: more updates queue up for the non-reading victim
+            MessageRef sd = Msg(PR_COMMAND_SETDATA); sd()->AddMessage((rng() & 1) ? "a" : "b", Msg(1 + (rng() & 1)));
+            if (rng() & 2) {SetDataNodeFlags fl; fl.SetBit(SETDATANODE_FLAG_ENABLESUPERCEDE); sd()->AddFlat(PR_NAME_FLAGS, fl);}   // NodeChangedAux then scans the non-reading subscriber's queue for the update it supersedes
+            w.Send(ow.W, sd); w.Settle(2); }
+         snprintf(when, sizeof(when), "answering the witness's ping after hostile Message #%lld (what %lld) from %s", (long long) c["id"].i(), (long long) c["what"].i(), sender->name.c_str());
+         g_hPings++; ow.WitnessPing(when);
+         ow.B->inbox.clear(); ow.W->inbox.clear(); ow.W->mirror.clear(); ow.B->mirror.clear();
+         if (w.Attached(ow.V)) {const long bl = (long) ow.V->sess->OutQ()->GetNumItems(); if (bl > g_hBacklogMax) g_hBacklogMax = bl;}
+      }
+      if (!ow.viol.empty()) {g_violCases++; J row = J::Obj(); row.set("violations", StrList(ow.viol)).set("pass", J::Str(passName)).set("valve_closed", J::Bool(blocked)).set("history", hist); RepJ(row);}
+      if (w.slowest > g_oqSlowest) g_oqSlowest = w.slowest; g_oqPumps += (long) w.pumps;
+   }
+}
+
+static int HostileRun(int argc, char ** argv)
+{
+   // srv hostile <cases.ndjson> <report> <seed> <perWorld> <nseq> <seqlen> [shard nshards]
+   if (argc < 8) return 2;
+   std::vector<J> cases; if (!ReadCases(argv[2], cases)) {fprintf(stderr, "cannot read %s\n", argv[2]); return 3;}
+   if (!OpenReport(argv[3])) return 3;
+   const unsigned seed = (unsigned) atoi(argv[4]); const size_t perWorld = (size_t) atoi(argv[5]); const int nseq = atoi(argv[6]); const size_t seqlen = (size_t) atoi(argv[7]);
+   const size_t shard = (argc > 9) ? (size_t) atoi(argv[8]) : 0, nshards = (argc > 9) ? (size_t) atoi(argv[9]) : 1;
+   std::mt19937 rng(seed*7919u + (unsigned) shard);
+   const double t0 = Now();
+   // pass 1: every Message of the enumeration once, from one client whose valve is closed
+   {std::vector<size_t> order; for (size_t i=shard; i<cases.size(); i+=nshards) order.push_back(i); HostilePass(cases, order, perWorld, 1, rng, "every Message once, one client");}
+   // pass 2: seeded random sequences from two clients
+   {std::vector<size_t> order; for (int s=0; s<nseq; s++) for (size_t k=0; k<seqlen; k++) order.push_back(rng() % cases.size()); HostilePass(cases, order, seqlen, 2, rng, "random sequences, two clients");}
+   J s = J::Obj(); s.set("summary", J::Bool(true)).set("cases", J::Int((int64_t) cases.size())).set("injected", J::Int(g_hInjected)).set("servers", J::Int(g_hWorlds)).set("pings_answered", J::Int(g_hPings - g_violCases)).set("violating_cases", J::Int(g_violCases))
+      .set("senders_lost", J::Int(g_hDropped)).set("max_backlog", J::Int(g_hBacklogMax)).set("pumps", J::Int(g_oqPumps)).set("slowest_pump_us", J::Int((int64_t) (g_oqSlowest*1e6))).set("wall_ms", J::Int((int64_t) ((Now()-t0)*1000)));
+   RepJ(s); return 0;
+}
